@@ -464,6 +464,8 @@ def r02_9(ctx):
 
 @rule("R02.10", "C02", "operators group as in C: precedence and associativity of the expression tower (a chain of ?: nests to the right, binary operators to the left)", min_instances=25)
 def r02_10(ctx):
+    from .c06 import operand_order
     from .c17 import r17_1
 
     r17_1(ctx)
+    operand_order(ctx)  # ... and an operator node keeps its operands on the sides the source put them, with the operator that was written
